@@ -124,10 +124,12 @@ func init() {
 		"(*sync.Once).Do": func(in *Interp, fr *frame, fn *ssa.Function, a []Value) Value {
 			k, _ := concKey(a[0])
 			if in.onceDone[k] {
+				in.raceAcquire("once:" + k)
 				return nil
 			}
 			in.onceDone[k] = true
 			in.callValue(fr, a[1], nil)
+			in.raceRelease("once:" + k)
 			return nil
 		},
 		"(*sync.Pool).Get": func(in *Interp, fr *frame, fn *ssa.Function, a []Value) Value {
@@ -139,6 +141,11 @@ func init() {
 				if st := in.pools[k]; len(st) > 0 {
 					v := st[len(st)-1]
 					in.pools[k] = st[:len(st)-1]
+					// the pool orders the Put of THIS object before its Get,
+					// nothing else
+					if ik, ok := concKey(v); ok {
+						in.raceAcquire("poolitem:" + ik)
+					}
 					return v
 				}
 			}
@@ -151,6 +158,9 @@ func init() {
 		},
 		"(*sync.Pool).Put": func(in *Interp, fr *frame, fn *ssa.Function, a []Value) Value {
 			if k, ok := concKey(a[0].(Ptr)); ok {
+				if ik, ok := concKey(a[1]); ok {
+					in.raceRelease("poolitem:" + ik)
+				}
 				if in.pools == nil {
 					in.pools = map[string][]Value{}
 				}
@@ -528,15 +538,18 @@ func (in *Interp) fpBits(f *Term) *Term {
 
 func atomicLoad(in *Interp, fr *frame, fn *ssa.Function, a []Value) Value {
 	in.schedPoint(fr)
+	defer in.raceAtomic(a[0])()
 	return in.load(fr, a[0].(Ptr))
 }
 func atomicStore(in *Interp, fr *frame, fn *ssa.Function, a []Value) Value {
 	in.schedPoint(fr)
+	defer in.raceAtomic(a[0])()
 	in.store(fr, a[0], a[1])
 	return nil
 }
 func atomicAdd(in *Interp, fr *frame, fn *ssa.Function, a []Value) Value {
 	in.schedPoint(fr)
+	defer in.raceAtomic(a[0])()
 	p := a[0].(Ptr)
 	nv := in.tt.BinBV(OAdd, in.load(fr, p).(*Term), a[1].(*Term))
 	in.store(fr, p, nv)
@@ -544,6 +557,7 @@ func atomicAdd(in *Interp, fr *frame, fn *ssa.Function, a []Value) Value {
 }
 func atomicSwap(in *Interp, fr *frame, fn *ssa.Function, a []Value) Value {
 	in.schedPoint(fr)
+	defer in.raceAtomic(a[0])()
 	p := a[0].(Ptr)
 	old := in.load(fr, p)
 	in.store(fr, p, a[1])
@@ -551,6 +565,7 @@ func atomicSwap(in *Interp, fr *frame, fn *ssa.Function, a []Value) Value {
 }
 func atomicCAS(in *Interp, fr *frame, fn *ssa.Function, a []Value) Value {
 	in.schedPoint(fr)
+	defer in.raceAtomic(a[0])()
 	p := a[0].(Ptr)
 	old := in.load(fr, p)
 	var eq *Term
